@@ -41,6 +41,9 @@ ItemVerdict(kind, got, want, full) ==
 
 \* what another listing does disturbs a listing only once it has been started (its first next() resets everything it
 \* reads: thread map, a fresh TracesParser) - except a callstack listing, whose image table is reset when it is REQUESTED
+\* REQUESTING a listing changes nothing the others read - except that requesting callstacks resets the image table
+DisturbOpen(gs, kind) == [j \in 1..Len(gs) |-> IF kind = "cs" /\ gs[j].kind = "cs" /\ ~gs[j].done
+                                                THEN [gs[j] EXCEPT !.clean = FALSE] ELSE gs[j]]
 Disturb(gs, except) == [j \in 1..Len(gs) |-> IF j # except /\ ~gs[j].done /\ (gs[j].started \/ gs[j].kind = "cs")
                                                THEN [gs[j] EXCEPT !.clean = FALSE] ELSE gs[j]]
 
@@ -53,7 +56,9 @@ ActStep(o, tables, W, a) ==
   IF "err" \in DOMAIN a /\ ~("cutend" \in DOMAIN a) /\ a.op # "badopen" THEN [v |-> "raised", W |-> W]
   \* a request on something that is not a dump is refused when the method is called: no listing, no change;
   \* a listing the caller drops (last reference deleted, finalisers run) changes nothing for the others
-  ELSE IF a.op = "badopen" \/ a.op = "drop" THEN [v |-> "ok", W |-> W]
+  ELSE IF a.op = "drop" THEN [v |-> "ok", W |-> W]
+  \* (a refused callstacks request has still reset the image table before it was refused)
+  ELSE IF a.op = "badopen" THEN [v |-> "ok", W |-> [W EXCEPT !.gens = DisturbOpen(@, a.kind)]]
   ELSE IF a.op = "cfg" THEN
     [v |-> "ok",
      W |-> [so |-> SetCfgObj(W.so, a.cfg, a.inplace),
@@ -62,7 +67,7 @@ ActStep(o, tables, W, a) ==
   ELSE IF a.op = "open" THEN
     [v |-> "ok",
      W |-> [so |-> OpenObj(W.so, a.kind, a.d, a.codes),
-            gens |-> Append(Disturb(W.gens, 0), NewGen(W.so, a.kind, a.d, a.codes))]]
+            gens |-> Append(DisturbOpen(W.gens, a.kind), NewGen(W.so, a.kind, a.d, a.codes))]]
   ELSE LET g == W.gens[a.g]
            dump == o.dumps[g.d]
            r == Adv(W.so, g, dump, tables)
